@@ -14,13 +14,21 @@ def c25(tier, seed):
         c.violations = [v for v in c.violations if not v.key.startswith('inconclusive:')]
         c.inconclusive.append('%d runs hit the 120 s drain watchdog (machine load); not a verdict' % len(inc))
     c.evaluations = c.stats.get('wire_messages', 0)
+    if not c.stats.get('retransmissions_checked', 0):
+        c.inconclusive.append('no resend request was answered in this run: the replay-versus-senders part observed nothing')
+    c.extra['resend_requests_served_while_sending'] = c.stats.get('resend_requests', 0)
+    c.extra['retransmissions_checked'] = c.stats.get('retransmissions_checked', 0)
     c.distinct_names = ['wire_interleaving']
     c.extra['thread_sanitizer_build'] = True
     c.rule = ('2..8 application threads x 20..200 messages each through ONE real Session on a real ServerConnection (pm_thread and pm_pipeline '
               'alternating, file and memory persister alternating), send(Message*) mixed with send_batch(2..6) (0..50%), seeded yields/spins in '
               'the senders, message sizes varied; a wire-reader thread records the peer socket; oracle: the stream splits into whole messages, '
               'MsgSeqNums are start..start+N-1 each once in increasing wire order, every id exactly once, stored copy under each number == wire '
-              'message; built with -fsanitize=thread (hook H1 makes FastFlow hand-overs visible; races inside ff:: are suppressed) and again with '
+              'message; in 45% of the cases the peer also sends ResendRequests WHILE the threads are sending (one outstanding at a time, bounded '
+              'ranges below the highest number it has seen, finally one open-ended): the replay runs on the session\'s receiving thread against the '
+              'senders\' stores; every number in such a range was stored before the request existed (sends are serialised, a message is stored '
+              'before the next is written), so it must come back as a PossDup copy equal to what was transmitted (modulo 9/43/52/122/10), in '
+              'ascending order, never covered by a gap fill; built with -fsanitize=thread (hook H1 makes FastFlow hand-overs visible; races inside ff:: are suppressed) and again with '
               'ASan; evaluations = messages on the wire; distinct = distinct orders of sender threads on the wire')
     c.assumptions = ['FastFlow\'s volatile/CAS protocol is trusted as acquire/release on x86-64 (its functional behaviour is C30)',
                      'ThreadSanitizer sees only the interleavings that occurred']
